@@ -54,6 +54,10 @@ class ImmutableKnotVector(tuple):
                 return False
         if vector.count(vector[degree]) != vector.count(vector[npts]):
             return False
+        if vector.count(vector[0]) != degree + 1:
+            return False
+        if vector.count(vector[-1]) != degree + 1:
+            return False
         return True
 
     def __new__(cls, knotvector: Tuple[float], degree: Optional[int] = None):
